@@ -5,9 +5,11 @@
 package larking
 
 import (
+	"bytes"
 	"encoding/binary"
 	"fmt"
 	"io"
+	"math"
 	"sync"
 
 	"google.golang.org/grpc/encoding"
@@ -69,6 +71,27 @@ type StreamCodec interface {
 	WriteNext(w io.Writer, src []byte) (n int, err error)
 }
 
+// readMore reads from r into the spare capacity of b, growing it if needed.
+// Data returned together with io.EOF is kept (the EOF is seen again on the
+// next read); an EOF while b holds part of a message is unexpected.
+func readMore(b []byte, r io.Reader) ([]byte, error) {
+	if len(b) == cap(b) {
+		// Add more capacity (let append pick how much).
+		b = append(b, 0)[:len(b)]
+	}
+	n, err := r.Read(b[len(b):cap(b)])
+	b = b[:len(b)+n]
+	if err == io.EOF {
+		if n > 0 {
+			return b, nil
+		}
+		if len(b) > 0 {
+			return b, io.ErrUnexpectedEOF
+		}
+	}
+	return b, err
+}
+
 func errInvalidType(v any) error {
 	return fmt.Errorf("marshal invalid type %T", v)
 }
@@ -106,13 +129,8 @@ func (CodecProto) Unmarshal(data []byte, v interface{}) error {
 func (c CodecProto) ReadNext(b []byte, r io.Reader, limit int) ([]byte, int, error) {
 	for i := 0; i < binary.MaxVarintLen64; i++ {
 		for i >= len(b) {
-			if len(b) == cap(b) {
-				// Add more capacity (let append pick how much).
-				b = append(b, 0)[:len(b)]
-			}
-			n, err := r.Read(b[len(b):cap(b)])
-			b = b[:len(b)+n]
-			if err != nil {
+			var err error
+			if b, err = readMore(b, r); err != nil {
 				return b, 0, err
 			}
 		}
@@ -125,7 +143,7 @@ func (c CodecProto) ReadNext(b []byte, r io.Reader, limit int) ([]byte, int, err
 	if n < 0 {
 		return b, 0, protowire.ParseError(n)
 	}
-	if limit > 0 && int(size) > limit {
+	if (limit > 0 && size > uint64(limit)) || size > math.MaxInt32 {
 		return b, 0, &protodelim.SizeTooLargeError{Size: size, MaxSize: uint64(limit)}
 	}
 	b = b[n:] // consume the varint
@@ -203,13 +221,11 @@ func (c CodecJSON) ReadNext(b []byte, r io.Reader, limit int) ([]byte, int, erro
 	)
 	for i := 0; i < int(limit); i++ {
 		for i >= len(b) {
-			if len(b) == cap(b) {
-				// Add more capacity (let append pick how much).
-				b = append(b, 0)[:len(b)]
-			}
-			n, err := r.Read(b[len(b):cap(b)])
-			b = b[:len(b)+n]
-			if err != nil {
+			var err error
+			if b, err = readMore(b, r); err != nil {
+				if err == io.ErrUnexpectedEOF && braceCount == 0 && len(bytes.TrimSpace(b)) == 0 {
+					err = io.EOF // only whitespace after the last object
+				}
 				return b, 0, err
 			}
 		}
@@ -270,22 +286,26 @@ func (codecHTTPBody) Unmarshal(data []byte, v interface{}) error {
 func (codecHTTPBody) Name() string { return "body" }
 
 func (codecHTTPBody) ReadNext(b []byte, r io.Reader, limit int) ([]byte, int, error) {
-	var total int
-	for {
+	// b may already hold data carried over from the previous call.
+	for limit <= 0 || len(b) < limit {
 		if len(b) == cap(b) {
 			// Add more capacity (let append pick how much).
 			b = append(b, 0)[:len(b)]
 		}
 		n, err := r.Read(b[len(b):cap(b)])
 		b = b[:len(b)+n]
-		total += int(n)
-		if total > limit {
-			total = limit
+		if err == io.EOF && len(b) > 0 {
+			break // final chunk, EOF is reported by the next call
 		}
-		if err != nil || total == limit {
-			return b, total, err
+		if err != nil {
+			return b, 0, err
 		}
 	}
+	n := len(b)
+	if limit > 0 && n > limit {
+		n = limit
+	}
+	return b, n, nil
 }
 
 func (codecHTTPBody) WriteNext(w io.Writer, b []byte) (int, error) {
